@@ -211,4 +211,12 @@ theorem comment_scan_exact_aux (isSpace : Char → Bool) (hs1 : isSpace '/' = fa
   rw [hx]
   simpa [scanCL] using scanC_clean nested rest B x (hclean nested)
 
+theorem readComment_generated (isSpace : Char → Bool) (hs1 : isSpace '/' = false) (hs2 : isSpace '*' = false)
+    (nested : Bool) (c rest : List Char) (hc : c ≠ []) :
+    readComment nested (sanitizeComment isSpace c ++ '*' :: '/' :: rest) = some (sanitizeComment isSpace c, rest) := by
+  simp only [readComment, comment_scan_exact_aux isSpace hs1 hs2 nested c rest hc, Option.map_some]
+  have : (sanitizeComment isSpace c ++ '*' :: '/' :: rest).length - rest.length - 2 = (sanitizeComment isSpace c).length := by
+    simp; omega
+  rw [this, List.take_left]
+
 end SqlglotModel.Str
